@@ -1,5 +1,6 @@
 import QuantemModel.Lemmas.Resample
 import QuantemModel.Lemmas.ResampleSpectral
+import QuantemModel.Lemmas.ResampleNd
 /-!
 C06 — binning, Fourier resampling, padding and cropping obey conservation laws.
 Theorems about `Model/Resample.lean` (the array and calibration arithmetic of
@@ -247,6 +248,49 @@ theorem resample_roundtrip_real (x : List (Cx ℝ)) (m : ℕ) (hn : 1 ≤ x.leng
     takeReal (resample1 x.length (takeReal (resample1 m x))) = x :=
   resample1_up_down_real x m hn hnm hx hny
 
+/-! ### Fourier resampling in N dimensions: the model's N-D operator `resampleNd` is the fold
+`resampleFold` of the 1-D operator over the (axis, new length) pairs followed by the single
+`N_out/N_in` rescale; the 1-D laws lift by induction over the axis list.  (That NumPy's
+`fftn`/`ifftn` is this separable composition is what the Float correspondence measures.) -/
+
+/-- **N-D element access**: along one axis, output element `j` is entry `j[ax]` of the 1-D
+operator applied to the line of the input through `j`. -/
+theorem resampleNd_axis_get (a : Arr (Cx ℝ)) (ax m : ℕ) {j : List ℕ} (hj : InBox (a.shape.set ax m) j) :
+    (alongAxis a ax m (resample1U m)).get j = (resample1U m (line a ax j)).getD (j.getD ax 0) default :=
+  alongAxis_get a ax m _ hj
+
+/-- **N-D mean preservation**: for every shape, every list of distinct valid axes and output
+lengths `≥ 1` (non-empty axes), the mean of the resampled array equals the mean of the input;
+equivalently the sum grows by exactly `N_out/N_in`. -/
+theorem resampleNd_mean (a : Arr (Cx ℝ)) (ha : WFArr a) (axes outs : List ℕ) (hnd : axes.Nodup)
+    (hl : axes.length = outs.length) (h : PairsOk a.shape (axes.zip outs))
+    (hv : ∀ ax ∈ axes, ax < a.shape.length) :
+    total (resampleNd a axes outs false)
+        = (((prod outs : ℕ) : ℂ) / ((prod (axes.map fun ax => a.shape.getD ax 1) : ℕ) : ℂ)) * total a ∧
+    total (resampleNd a axes outs false) / ((prod (resampleNd a axes outs false).shape : ℕ) : ℂ)
+        = total a / ((prod a.shape : ℕ) : ℂ) :=
+  ⟨total_resampleNd a ha axes outs h, mean_resampleNd a ha axes outs hnd hl h hv⟩
+
+/-- **N-D linearity**: `R(c·x + y) = c·R(x) + R(y)` for arrays of equal shape, any axes. -/
+theorem resampleNd_linear (c : Cx ℝ) (x y : Arr (Cx ℝ)) (axes outs : List ℕ) (hs : x.shape = y.shape)
+    (hx : WFArr x) (hy : WFArr y) (h : PairsOk x.shape (axes.zip outs)) :
+    resampleNd (linArr c x y) axes outs false
+      = linArr c (resampleNd x axes outs false) (resampleNd y axes outs false) :=
+  resampleNd_lin c x y axes outs hs hx hy h
+
+/-- **N-D identity when the shape is unchanged** (any axes, repeated or not). -/
+theorem resampleNd_identity (a : Arr (Cx ℝ)) (ha : WFArr a) (axes : List ℕ)
+    (hv : ∀ ax ∈ axes, ax < a.shape.length) (hne : prod (axes.map fun ax => a.shape.getD ax 1) ≠ 0) :
+    resampleNd a axes (axes.map fun ax => a.shape.getD ax 1) false = a :=
+  resampleNd_same a ha axes hv hne
+
+/-- **N-D round trip of the fold**: up-sampling along any list of axes (each to a length not
+smaller than its current one) and then bringing the axes back in reverse order returns the
+original array — by induction over the axis list from the 1-D round trip. -/
+theorem resampleNd_roundtrip_fold (a : Arr (Cx ℝ)) (ha : WFArr a) (up : List (ℕ × ℕ))
+    (h : UpOk a.shape up) : resampleFold (resampleFold a up) (downPairs a.shape up) = a :=
+  resampleFold_up_down a ha up h
+
 /-! ### non-vacuity -/
 
 example : freqMap 4 7 = [some 0, some 1, none, none, none, some 2, some 3] := by decide
@@ -275,5 +319,10 @@ example : NoNyquist [(⟨3, 0⟩ : Cx ℝ), ⟨3, 0⟩] := by
     rw [show (2 : ℂ) * (Real.pi : ℂ) * I / ((2 : ℕ) : ℂ) = (Real.pi : ℂ) * I by push_cast; ring]
     exact Complex.exp_pi_mul_I
   simp [Finset.sum_range_succ, hz, toC]
+
+-- hypotheses of the N-D theorems are satisfiable
+example : PairsOk [3, 4] ([0, 1].zip [5, 2]) ∧ UpOk [3, 4] [(1, 6), (0, 3)] ∧
+    downPairs [3, 4] [(1, 6), (0, 3)] = [(0, 3), (1, 4)] := by
+  simp [PairsOk, UpOk, downPairs]
 
 end QuantemModel.Props.C06
